@@ -432,8 +432,30 @@ def stepSharedCancel (scriptS pS orderS impl : String) : String :=
       else ok "shared-cancel" true
   | _, _ => "SKIP unparsable"
 
+/-- `fi chans`: the real `FanInIteratorChannels` with a live context. Property (`FanIn.fanIn_live_perm`,
+`fanIn_live_order`): the consumer receives every input message exactly once — messages that carry only an error
+included — and the messages of one input in their order. Judged on the implementation's output alone. -/
+def stepFanIn (spec impl : String) : String :=
+  let chans : List (List String) := (spec.splitOn ";").map fun c => if c == "-" then [] else c.splitOn ","
+  let got : List String := if impl == "-" then [] else impl.splitOn ","
+  let all := chans.flatten
+  let missing := all.filter (fun t => !got.contains t)
+  let extra := got.filter (fun t => !all.contains t)
+  let rec isSub : List String → List String → Bool
+    | [], _ => true
+    | _ :: _, [] => false
+    | a :: as, b :: bs => if a == b then isSub as bs else isSub (a :: as) bs
+  if impl.startsWith "HANG" then specViol s!"fan-in never closed its output: {impl}"
+  else if !missing.isEmpty then
+    let errOnly := missing.filter (·.startsWith "e")
+    specViol s!"fan-in lost messages {missing}" ++ (if errOnly.isEmpty then "" else s!" — error-only messages {errOnly} never reached the consumer, which sees a complete, shorter sequence")
+  else if !extra.isEmpty || got.length != all.length then specViol s!"fan-in delivered messages that were not sent or delivered one twice: got {got}"
+  else if !(chans.all fun c => isSub c got) then specViol s!"fan-in reordered the messages of one input: got {got}"
+  else ok "fan-in" (all.any (·.startsWith "e"))
+
 def step (c impl : String) : String :=
   match fields c with
+  | ["fi", spec] => stepFanIn spec impl
   | ["shc", script, p, order] => stepSharedCancel script p order impl
   | ["ad", adapter, param, scripts, ops] => stepAdapter adapter param scripts ops impl
   | ["sh", _, script, acts] => stepShared script acts impl
